@@ -44,7 +44,7 @@ func runReqScenario(c *Ctx, cfg reqScenarioCfg) {
 	txTimes := map[uint32][]time.Time{}
 	issuedAt := map[uint32]time.Time{}
 	quietAt := map[uint32]time.Time{} // when the observation of the operation that finished a request (answered / cancelled) was complete
-	armLB := map[uint32]time.Time{} // earliest moment the latest transmission of a request can have been scheduled (its retry timer armed)
+	armLB := map[uint32]time.Time{}   // earliest moment the latest transmission of a request can have been scheduled (its retry timer armed)
 	lastTxPipe := map[uint32]int{}
 	lostAt := map[uint32]time.Time{} // when the pipe carrying the latest copy was lost
 	maybeCancelled := map[uint32]bool{}
